@@ -20,15 +20,16 @@ func propC19(c *Ctx) {
 	eff := c.W.BuildEffects()
 
 	c.Rule("C19.R1", func() {
-		o := c.Ob("C19.R1", "SetAdmin call sites = {registerChannelAdmin, BridgeChallengerUpdated}")
-		al := setOf("(ophost/types/hook.BridgeHook).registerChannelAdmin", "(ophost/types/hook.BridgeHook).BridgeChallengerUpdated")
+		o := c.Ob("C19.R1", "SetAdmin is reached only from the three bridge hooks {BridgeCreated, BridgeMetadataUpdated (both via the fresh-and-free registration), BridgeChallengerUpdated}")
+		al := setOf("(ophost/types/hook.BridgeHook).BridgeCreated", "(ophost/types/hook.BridgeHook).BridgeMetadataUpdated", "(ophost/types/hook.BridgeHook).BridgeChallengerUpdated")
 		seen := map[string]bool{}
 		for _, s := range eff.Where(func(s *Site) bool { return s.Kind == SIface && s.Method == "SetAdmin" }) {
 			o.Sites++
-			r := fnShort(s.Root())
-			seen[r] = true
-			if !al[r] {
-				o.Fail(c.W.Pos(s.Pos), "SetAdmin called from "+r, nil)
+			for _, r := range eff.OwnerNames(s) {
+				seen[r] = true
+				if !al[r] {
+					o.Fail(c.W.Pos(s.Pos), "SetAdmin called from "+r+attributedNote(s, r), nil)
+				}
 			}
 		}
 		for a := range al {
@@ -109,7 +110,8 @@ func propC19(c *Ctx) {
 			}
 			decoded := dec != nil && p.factIs(len(p.Events), "("+dec.String()+" == nil)", true)
 			isStrict := dec != nil && strict != nil && strict.Args[0].String() == dec.Args[0].String() && strict.ID < dec.ID
-			src := dec != nil && strings.Contains(dec.Args[0].Key(), "string(metadata)")
+			// the decoder reads the metadata itself: NewDecoder(strings.NewReader(string(metadata))) or NewDecoder(bytes.NewReader(metadata))
+			src := dec != nil && (strings.Contains(dec.Args[0].Key(), "strings.NewReader(string(metadata))") || strings.Contains(dec.Args[0].Key(), "bytes.NewReader(metadata)") || strings.Contains(dec.Args[0].Key(), "bytes.NewBuffer(metadata)"))
 			if !probe || !decoded || !isStrict || !src {
 				o.Fail(c.W.Pos(hp.Pos()), fmt.Sprintf("returns true without: key probe [%v], Decode == nil [%v], DisallowUnknownFields on the same decoder before Decode [%v], decoding the metadata itself [%v]", probe, decoded, isStrict, src), c.Dump(p, -1))
 			}
